@@ -261,6 +261,10 @@ enum Op {
     TransferAdmin { new: Who, signer: Who },
     AcceptAdmin { signer: Who },
     RenounceAdmin { signer: Who },
+    /// wrapper: `#[only_admin]` + `remove_role_admin_no_auth`
+    RemoveRoleAdmin { role: Role, signer: Who },
+    /// wrapper: `#[only_admin]` + `remove_role_accounts_count_no_auth` (leaf probe)
+    RemoveCount { role: Role, signer: Who },
 }
 
 #[derive(Clone, Debug, PartialEq, Eq, Hash)]
@@ -337,6 +341,9 @@ impl Model {
                 self.admin = None;
                 self.renounced = true;
             }
+            Op::RemoveRoleAdmin { role, .. } => self.role_admin[*role as usize] = None,
+            // removes a bookkeeping entry only: the queryable membership stays what it was
+            Op::RemoveCount { .. } => {}
         }
     }
 }
@@ -410,6 +417,8 @@ impl Ac {
             Op::TransferAdmin { new, signer } => ("transfer_admin_role", (i.a(*new), envx::now(e) + OFFER_TTL).into_val(e), *signer),
             Op::AcceptAdmin { signer } => ("accept_admin_transfer", SVec::new(e), *signer),
             Op::RenounceAdmin { signer } => ("renounce_admin", SVec::new(e), *signer),
+            Op::RemoveRoleAdmin { role, signer } => ("remove_role_admin", (sym(*role),).into_val(e), *signer),
+            Op::RemoveCount { role, signer } => ("remove_role_count", (sym(*role),).into_val(e), *signer),
         }
     }
 
@@ -638,6 +647,25 @@ impl World for Ac {
             v.push(Op::RenounceAdmin { signer: as_admin });
             v.push(Op::RenounceAdmin { signer: Who::Nobody });
             v.push(Op::RenounceAdmin { signer: not_admin });
+            // clean-up primitives behind #[only_admin]
+            let mut first = true;
+            let mut absent_probe = true;
+            for r in roles_e.iter().copied() {
+                if m.role_admin[r as usize].is_some() {
+                    v.push(Op::RemoveRoleAdmin { role: r, signer: as_admin });
+                    if first {
+                        v.push(Op::RemoveRoleAdmin { role: r, signer: Who::Nobody });
+                        v.push(Op::RemoveRoleAdmin { role: r, signer: not_admin });
+                        first = false;
+                    }
+                } else if absent_probe {
+                    v.push(Op::RemoveRoleAdmin { role: r, signer: as_admin });
+                    absent_probe = false;
+                }
+            }
+            for r in roles_e.iter().copied() {
+                v.push(Op::RemoveCount { role: r, signer: as_admin });
+            }
         }
         let mut out: Vec<Op> = vec![];
         for op in v {
@@ -657,8 +685,14 @@ impl World for Ac {
             Op::TransferAdmin { .. } => "transfer_admin_role",
             Op::AcceptAdmin { .. } => "accept_admin_transfer",
             Op::RenounceAdmin { .. } => "renounce_admin",
+            Op::RemoveRoleAdmin { .. } => "only_admin:remove_role_admin",
+            Op::RemoveCount { .. } => "only_admin:remove_role_count",
         }
         .to_string()
+    }
+
+    fn leaf_only(&self, op: &Op) -> bool {
+        matches!(op, Op::RemoveCount { .. })
     }
 
     fn apply(&self, i: &mut Inst, op: &Op) {
@@ -720,7 +754,11 @@ impl World for Ac {
                     );
                 }
             }
-            Op::SetRoleAdmin { signer, .. } | Op::TransferAdmin { signer, .. } | Op::RenounceAdmin { signer } => {
+            Op::SetRoleAdmin { signer, .. }
+            | Op::TransferAdmin { signer, .. }
+            | Op::RenounceAdmin { signer }
+            | Op::RemoveRoleAdmin { signer, .. }
+            | Op::RemoveCount { signer, .. } => {
                 let sc = if m.renounced {
                     "anybody after renounce_admin"
                 } else if m.is_admin(*signer) {
@@ -734,6 +772,14 @@ impl World for Ac {
                 if ok {
                     ensure!(!m.renounced, "admin-only-after-renounce", "{:?} succeeded although the admin was renounced", op);
                     ensure!(m.is_admin(*signer), "admin-only", "{:?} succeeded, authorized by {:?}, while the admin is {:?}", op, signer, m.admin);
+                    if let Op::RemoveCount { role, .. } = op {
+                        ensure!(
+                            !ACCTS.iter().any(|w| m.holds(*w, *role)),
+                            "member-count",
+                            "{:?} removed the member counter of a role that still has members",
+                            op
+                        );
+                    }
                 }
             }
             Op::AcceptAdmin { signer } => {
@@ -1225,7 +1271,7 @@ fn main() {
             r.world(&Ac { variant: Variant::Seeded }, &Bounds::new(tier.pick(3, 5), wall(12, 200)));
         }
         if want("ac-wrapper-maxroles") {
-            r.world(&Ac { variant: Variant::MaxRoles }, &Bounds::new(tier.pick(3, 4), wall(6, 40)));
+            r.world(&Ac { variant: Variant::MaxRoles }, &Bounds::new(tier.pick(4, 5), wall(6, 40)));
         }
         if want("nft-access-control-macros") {
             r.world(&Macros, &Bounds::new(tier.pick(4, 7), wall(4, 30)));
@@ -1237,7 +1283,17 @@ fn main() {
             return;
         }
         if let Some(rep) = r.report() {
-            let ac = ["grant_role", "revoke_role", "renounce_role", "set_role_admin", "transfer_admin_role", "accept_admin_transfer", "renounce_admin"];
+            let ac = [
+                "grant_role",
+                "revoke_role",
+                "renounce_role",
+                "set_role_admin",
+                "transfer_admin_role",
+                "accept_admin_transfer",
+                "renounce_admin",
+                "only_admin:remove_role_admin",
+                "only_admin:remove_role_count",
+            ];
             let guarded = [
                 "only_admin:admin_restricted_function",
                 "only_role:mint",
@@ -1264,7 +1320,9 @@ fn main() {
             counters.push("renounce_role: caller=holder signer=nobody -> refused".into());
             counters.push("renounce_role: caller=holder signer=other -> refused".into());
             counters.push("renounce_role: caller=non-holder signer=self -> refused".into());
-            for k in ["set_role_admin", "transfer_admin_role", "renounce_admin"] {
+            // the role limit: a privileged, self-signed grant that creates role MAX_ROLES+1 is refused
+            counters.push("grant_role: caller=contract-admin signer=self -> refused".into());
+            for k in ["set_role_admin", "transfer_admin_role", "renounce_admin", "only_admin:remove_role_admin"] {
                 counters.push(format!("{k}: signer=admin -> ok"));
                 counters.push(format!("{k}: signer=non-admin -> refused"));
                 counters.push(format!("{k}: signer=nobody -> refused"));
